@@ -184,11 +184,11 @@ func (e *Exec) appendOp(fr *frame, ci ssa.CallInstruction, args []SV, st *State,
 		name := heapSym("A", typeKey(et), l.Path)
 		A := e.heapGet(st, name, ArrSort(SInt, ArrSort(SInt, l.Sort)))
 		v := Select(Select(A, vs.L[0]), vs.L[1])
-		a1 := Store(A, s.L[0], Store(Select(A, s.L[0]), Add(s.L[1], s.L[2]), v))
+		a1 := Store(A, s.L[0], Store(Select(A, s.L[0]), CellIdx(s.L[1], s.L[2]), v))
 		cp := e.ctx.fresh("copy", ArrSort(SInt, l.Sort))
 		q := "i!cp"
-		st.pc = append(st.pc, Term{fmt.Sprintf("(forall ((%s Int)) (=> (and (<= 0 %s) (< %s %s)) (= (select %s %s) (select (select %s %s) (+ %s %s)))))",
-			q, q, q, s.L[2].S, cp.S, q, A.S, s.L[0].S, s.L[1].S, q), SBool})
+		st.pc = append(st.pc, Term{fmt.Sprintf("(forall ((%s Int)) (=> (and (<= 0 %s) (< %s %s)) (= (select %s %s) (select (select %s %s) %s))))",
+			q, q, q, s.L[2].S, cp.S, q, A.S, s.L[0].S, CellIdx(s.L[1], Term{q, SInt}).S), SBool})
 		a2 := Store(A, newarr, Store(cp, s.L[2], v))
 		e.heapSet(st, name, Ite(fits, a1, a2))
 	}
@@ -212,7 +212,7 @@ func (e *Exec) applyContract(fr *frame, st *State, ci ssa.CallInstruction, calle
 		}
 	}
 	pre := st.clone()
-	env := &specEnv{st: st, old: pre, vars: vars, oldVars: vars, pkg: pkgOf(callee)}
+	env := &specEnv{into: st, st: st, old: pre, vars: vars, oldVars: vars, pkg: pkgOf(callee)}
 	cname := fnName(fr.fn)
 	for _, rq := range sp.Requires {
 		g, err := e.evalSpecBool(rq.Expr, env)
@@ -241,8 +241,21 @@ func (e *Exec) applyContract(fr *frame, st *State, ci ssa.CallInstruction, calle
 	st.alloc = na
 	res := e.freshSV("res."+callee.Name(), rt)
 	e.wfAssume(st, res)
+	if sp.Functional != "" {
+		var as []Term
+		for _, a := range args {
+			as = append(as, a.L...)
+		}
+		for k := range res.L {
+			st.pc = append(st.pc, Eq(res.L[k], e.ctx.uf(functionalName(sp.Functional, k, len(res.L)), res.L[k].Sort, as...)))
+		}
+	} else if !sp.Trusted || true {
+		if len(sp.Modifies) > 0 || sp.Functional == "" {
+			st.impure = append(st.impure, "calls "+sp.Name)
+		}
+	}
 	e.bindResults(vars, callee, sp, res)
-	env2 := &specEnv{st: st, old: pre, vars: vars, oldVars: vars, pkg: pkgOf(callee)}
+	env2 := &specEnv{into: st, st: st, old: pre, vars: vars, oldVars: vars, pkg: pkgOf(callee)}
 	for _, en := range sp.Ensures {
 		g, err := e.evalSpecBool(en.Expr, env2)
 		if err != nil {
@@ -251,7 +264,7 @@ func (e *Exec) applyContract(fr *frame, st *State, ci ssa.CallInstruction, calle
 		}
 		st.pc = append(st.pc, g)
 	}
-	st.events = append(st.events, Event{Kind: "call", Callee: sp.Name, SVs: args, Instr: ci})
+	st.events = append(st.events, Event{Kind: "call", Callee: "call:" + sp.Name, Mode: sp.effects(), SVs: args, Terms: res.L, Res: res, Instr: ci})
 	return res
 }
 
@@ -303,4 +316,19 @@ func (e *Exec) havocClasses(st *State, prefixes []string) {
 		}
 		e.markHavoc(st, p)
 	}
+}
+
+// effects of a function under contract: declared classes, default pure alloc.
+func (sp *FuncSpec) effects() string {
+	if sp.Effect == "" {
+		return "pure alloc"
+	}
+	return sp.Effect + " pure alloc"
+}
+
+func functionalName(base string, k, n int) string {
+	if n == 1 {
+		return base
+	}
+	return fmt.Sprintf("%s#%d", base, k)
 }
